@@ -62,6 +62,7 @@ class CkptBackend(TrialBackend):
         self._ctx = "callback"
         self.plan = list(spec.get("plan") or [])   # replay: recorded world choices
         self.plan_out = []
+        self.trial_of_lr = {}   # value of hyperparameter "lr" -> trial id (identifies PBT clone sources)
 
     # ---- scripted choices (recorded so that a replay is exact) ---------------
     def _choose(self, n):
@@ -99,6 +100,8 @@ class CkptBackend(TrialBackend):
     def start_trial(self, config, checkpoint_trial_id=None):
         tid = self.new_trial_id()
         self.log.append(("start", tid, None if checkpoint_trial_id is None else int(checkpoint_trial_id)))
+        if "lr" in config:
+            self.trial_of_lr[float(config["lr"])] = tid
         return super().start_trial(config, checkpoint_trial_id)
 
     def resume_trial(self, trial_id, new_config=None):
@@ -184,6 +187,24 @@ class CkptBackend(TrialBackend):
             if self.epoch[t] >= self.limit[t]:
                 self._trial_dict[t].status = Status.completed
         return super().fetch_status_results(trial_ids)
+
+
+class Explorer:
+    """custom_explore_fn for PopulationBasedTraining (public constructor argument): PBT
+    calls it with a copy of the config of the trial it clones from, so the harness learns
+    which trial random_state.choice drew; returns a config with a fresh, unique "lr"."""
+
+    def __init__(self, backend):
+        self.backend = backend
+        self.k = 0
+
+    def __call__(self, config):
+        src = self.backend.trial_of_lr.get(float(config["lr"]))
+        self.backend.log.append(("explore", src))
+        self.k += 1
+        config = dict(config)
+        config["lr"] = (0.137 + 0.6180339887 * self.k) % 1.0
+        return config
 
 
 class Recorder(TunerCallback):
